@@ -15,6 +15,7 @@ import (
 	"runtime"
 	"strings"
 	"sync"
+	"sync/atomic"
 	"testing"
 	"time"
 
@@ -1035,6 +1036,13 @@ func replay(cf *evid.CaseFile) error {
 	if cf.Sub == "flood" {
 		return fmt.Errorf("a failure of the failed-use flood is reproduced by ./check C17 quick")
 	}
+	if cf.Sub == "first-use" {
+		var c FirstCase
+		if err := evid.Decode(cf.Gob, &c); err != nil {
+			return err
+		}
+		return firstOracle(&c)
+	}
 	if cf.Sub == "cancel" {
 		var c CancelCase
 		if err := evid.Decode(cf.Gob, &c); err != nil {
@@ -1064,7 +1072,96 @@ func replay(cf *evid.CaseFile) error {
 	return err
 }
 
+// FirstCase: the very first queries of the process arrive together, on one
+// handle, from several goroutines (whatever the library sets up on first use
+// is set up under concurrency).  It has to run before anything else of the
+// test process has parsed or executed a query.
+type FirstCase struct{ Goroutines int }
+
+func (c *FirstCase) Summary() string {
+	return fmt.Sprintf("the first %d queries of the process, issued at the same moment on one handle", c.Goroutines)
+}
+
+func firstOracle(c *FirstCase) error {
+	dir := fix.CaseDir()
+	defer os.RemoveAll(dir)
+	cols := []string{"zeta_9", "Alpha_x1", "b", "long_identifier_with_many_parts_42", "Q", "m_", "x9_y8_z7", "UPPER_lower"}
+	var rows []model.Row
+	for i := 0; i < 60; i++ {
+		r := model.Row{}
+		for j, col := range cols {
+			r[col] = fmt.Sprintf("v%d", (i+j)%(2+j%3))
+		}
+		rows = append(rows, r)
+	}
+	d := model.NewData(rows)
+	path, _, err := fix.Build(dir, rows, fix.WMemFile)
+	if err != nil {
+		return fmt.Errorf("INFRA: %v", err)
+	}
+	db, err := sql.Open("updog", "file:"+path)
+	if err != nil {
+		return err
+	}
+	defer db.Close()
+	db.SetMaxOpenConns(c.Goroutines)
+	var arrived atomic.Int32
+	errs := make([]error, c.Goroutines)
+	var wg sync.WaitGroup
+	for g := 0; g < c.Goroutines; g++ {
+		wg.Add(1)
+		go func(g int) {
+			defer wg.Done()
+			a, b := cols[g%len(cols)], cols[(g+3)%len(cols)]
+			e := model.And(model.Eq(a, "v1"), model.Not(model.Eq(b, "v0")))
+			gb := []string{cols[(g+5)%len(cols)]}
+			text := fmt.Sprintf(`%s = "v1" & ^%s = "v0" ; %s`, a, b, gb[0])
+			arrived.Add(1)
+			for spin := 0; spin < 500000 && int(arrived.Load()) < c.Goroutines; spin++ {
+				if spin%64 == 63 {
+					runtime.Gosched()
+				}
+			}
+			errs[g] = fix.Safe(func() error {
+				r, err := db.Query(text)
+				if err != nil {
+					return fmt.Errorf("query %+q (among the first of the process): %v", text, err)
+				}
+				got, err := fix.ScanAll(r)
+				if err != nil {
+					return err
+				}
+				if err := fix.CheckRows(got, gb, d.Query(e, gb)); err != nil {
+					return fmt.Errorf("query %+q (among the first of the process): %v", text, err)
+				}
+				return nil
+			})
+		}(g)
+	}
+	wg.Wait()
+	for _, e := range errs {
+		if e != nil {
+			return e
+		}
+	}
+	return nil
+}
+
+func runFirst(t *testing.T, c *FirstCase) {
+	evid.Inflight(prop, "first-use", c, c.Summary())
+	err := firstOracle(c)
+	evid.ClearInflight(prop, "first-use")
+	if err != nil && strings.HasPrefix(err.Error(), "INFRA:") {
+		panic(err.Error())
+	}
+	evid.Case(true, c.Summary(), "first-queries-of-the-process")
+	if err != nil {
+		fix.Fail(t, prop, "first-use", c, c.Summary(), err)
+	}
+}
+
 func TestQuick(t *testing.T) {
+	runFirst(t, &FirstCase{Goroutines: 8})
 	fix.Pinned(t, prop, replay)
 	fix.Check(t, "history", 150, func(rt *rapid.T) { run(rt, drawCase(rt, 15)) })
 	runCancel(t, &CancelCase{Opts: "preload=true", TimeoutMS: 20, Rows: 100000})
@@ -1075,6 +1172,7 @@ func TestQuick(t *testing.T) {
 }
 
 func TestThorough(t *testing.T) {
+	runFirst(t, &FirstCase{Goroutines: 4 + 2*(func() int { s, _ := evid.Shard(); return s }())})
 	if shard, _ := evid.Shard(); shard == 0 {
 		fix.Pinned(t, prop, replay)
 	}
